@@ -85,8 +85,11 @@ type optKey struct {
 }
 
 var sharedOpts = map[optKey]*jsonpatch.ApplyOptions{}
+var sharedOptsMu sync.Mutex
 
 func (a aopts) mk() *jsonpatch.ApplyOptions {
+	sharedOptsMu.Lock()
+	defer sharedOptsMu.Unlock()
 	k := optKey{a.neg, a.allow, a.ensure, a.esc, a.limit}
 	if o, ok := sharedOpts[k]; ok {
 		return o
@@ -1381,8 +1384,11 @@ type call struct {
 
 // slices returned by the calls of the current history, with private copies made when they were returned
 var heldRes, heldResCopy [][]byte
+var heldMu sync.Mutex
 
 func hold(b []byte) {
+	heldMu.Lock()
+	defer heldMu.Unlock()
 	if len(heldRes) > 64 {
 		heldRes, heldResCopy = heldRes[:0], heldResCopy[:0]
 	}
@@ -1391,6 +1397,8 @@ func hold(b []byte) {
 }
 
 func resultsIntact() bool {
+	heldMu.Lock()
+	defer heldMu.Unlock()
 	for i := range heldRes {
 		if !bytes.Equal(heldRes[i], heldResCopy[i]) {
 			return false
